@@ -43,5 +43,14 @@ if __name__ == "__main__":
         out = list(ex.map(one, sel))
     for bid, verdict, res in out:
         print(f"{verdict:22s} {bid:40s} {res}")
-    json.dump([{"break": b, "verdict": v, "runs": r} for b, v, r in out], open(os.path.join(HERE, "last_result.json"), "w"), indent=1)
+    # merge into the stored table (a partial run only replaces its own rows)
+    path = os.path.join(HERE, "last_result.json")
+    try:
+        prev = {r["break"]: r for r in json.load(open(path))}
+    except (OSError, ValueError):
+        prev = {}
+    for b, v, r in out:
+        prev[b] = {"break": b, "verdict": v, "runs": r}
+    known = [b[0] for b in BREAKS]
+    json.dump([prev[b] for b in known if b in prev], open(path, "w"), indent=1)
     sys.exit(0 if all(v == "CAUGHT" for _, v, _ in out) else 1)
